@@ -127,6 +127,7 @@ def gen_fidelity(rng, i):
     for _ in range(rng.choice([0, 1, 3, 6])):
         add_op()
     steps.append("start")
+    no_stall = False
     wplan = []
     nblocks = rng.choice([0, 1, 1, 2, 3])
     for b in range(nblocks):
@@ -145,8 +146,11 @@ def gen_fidelity(rng, i):
     rplan = []
     for _ in range(rng.choice([0, 3, 8])):
         rplan.append(rng.choice(["f1", "f1", "f2", "f3", "b", "f100"]))
+    if nblocks == 0:
+        steps.append("waitwire:1")      # the CONNECT has reached the broker before anything else is judged
     for _ in range(rng.choice([0, 1, 3])):
         add_op()
+    steps.append(f"waitwire:{1 + len(ops)}")
     steps.append("waitdone:4000")
     head = f"drv.run kind={kind} v={v}" + (f" wplan={','.join(wplan)}" if wplan else "") + (f" rplan={','.join(rplan)}" if rplan else "")
     return head + " | " + ";".join(steps), v, ops, kind
